@@ -745,6 +745,16 @@ func buildFixed(base string, variant int, plain bool) *Layout {
 	t.AddLink(in("lf_etc"), "/etc/hostname")
 	l.link(in("lf_secret"), "out/secret.txt", false)
 	t.AddLink(in("ld_base_abs"), base)
+	// two-level layouts (round 10, seed C20-r9): a FILE link whose target path stays inside
+	// the root as written but passes THROUGH a directory link - the real path of the file is
+	// decided by the link in the middle of the target, not by its spelling
+	l.link(in("lf_thru_out"), in("ld_out/s.lisp"), false)
+	l.link(in("lf_thru_out_abs"), in("ld_out_abs/d/t.lisp"), true)
+	l.link(in("lf_thru_in"), in("ld_in/b.lisp"), false)
+	l.link(in("sub/lf_thru_sib"), in("ld_sib/a.lisp"), false)
+	l.link(in("lf_thru_up"), in("ld_up/"+base_(R2)+"/a.lisp"), false)
+	t.AddLink(in("lf_thru_chain"), "lf_thru_out")
+	l.link(in("sub/deep/lf_thru_dchain"), in("dchain1/a.lisp"), false)
 	// the root reached through links
 	l.link(Rlink, R, false)
 	l.link(Rl2, Rlink, false)
@@ -794,6 +804,14 @@ func buildFixed(base string, variant int, plain bool) *Layout {
 	l.finish(Rlink, Rl2)
 	l.Starts = uniq([]string{R, in("sub/deep"), l.CwdRel, ""})
 	return l
+}
+
+// base_ is the last component of a sandbox-relative path.
+func base_(p string) string {
+	if i := strings.LastIndex(p, "/"); i >= 0 {
+		return p[i+1:]
+	}
+	return p
 }
 
 func uniq(xs []string) []string {
